@@ -452,9 +452,16 @@ impl<C: IterConfig> BucketIter<C> {
             None => {
                 if let Some((segment_id, index)) = live_indexes.get(&bucket_id) {
                     let segment_id = segment_id.load(Ordering::Acquire);
-                    if let Some((file_offsets, offsets_index)) = config
-                        .try_get_from_live_indexes(index, from_position, dir)
-                        .await
+                    // Same bound as above: a reverse scan that already left the live segment
+                    // must not come back to it and return its events a second time
+                    let matches = match dir {
+                        IterDirection::Forward => segment_id >= next_segment_id,
+                        IterDirection::Reverse => segment_id <= next_segment_id,
+                    };
+                    if matches
+                        && let Some((file_offsets, offsets_index)) = config
+                            .try_get_from_live_indexes(index, from_position, dir)
+                            .await
                     {
                         let segment_iter = SegmentIter::new(
                             reader_pool,
